@@ -16,31 +16,44 @@ def expected_dump(root, fld, nr, nf):
     return " ".join(node(root[r - 1], DEPTH) for r in range(1, nr + 1))
 
 
+# number of Int64 fields in front of the reference fields of a behaviour's Node class: the reference fields then sit at
+# object words 3+k ..; the sweep straddles the boundary between the two encodings of the per-class reference map
+# (a bitmap for references up to word 62, an offset list beyond) - every collector visits references through that map
+PADS = [0, 56, 57, 58, 59, 60, 61, 62, 63, 70, 1, 30, 64, 100]
+
+
+def classes(out, ind, nf, k, N="Node", H="Holder", P="Pair"):
+    """(type names are unique per behaviour: equally named types of different modules collide in linker symbols of generic
+    instantiations - a C19 finding of its own)"""
+    fields = ", ".join(f"f{f}: Option[{N}]" for f in range(1, nf + 1))
+    pads = "".join(f"p{j}: Int64, " for j in range(k))
+    out.append(f"{ind}class {N} {{ id: Int32, {pads}pad: Int64, {fields} }}")
+    out.append(f"{ind}class {H} {{ slot: Option[{N}] }}")
+    out.append(f"{ind}struct {P} {{ tag: Int32, item: Option[{N}] }}")
+    out.append(f"{ind}fn show(x: Option[{N}], d: Int32) {{")
+    out.append(f"{ind}    match x {{")
+    out.append(f"{ind}        None => print(\"-\"),")
+    out.append(f"{ind}        Some(n) => {{")
+    out.append(f"{ind}            print(\"${{n.id}}\");")
+    out.append(f"{ind}            if d == 0i32 {{ print(\"..\"); }} else {{")
+    out.append(f"{ind}                print(\"(\");")
+    for f in range(1, nf + 1):
+        if f > 1:
+            out.append(f"{ind}                print(\",\");")
+        out.append(f"{ind}                show(n.f{f}, d - 1i32);")
+    out.append(f"{ind}                print(\")\");")
+    out.append(f"{ind}            }}")
+    out.append(f"{ind}        }}")
+    out.append(f"{ind}    }}")
+    out.append(f"{ind}}}")
+    none_fields = ", ".join(f"f{f} = None[{N}]" for f in range(1, nf + 1))
+    padinit = "".join(f"p{j} = {j}, " for j in range(k))
+    out.append(f"{ind}fn mk(id: Int32): {N} {{ {N}(id = id, {padinit}pad = id.to_int64() * 1000, {none_fields}) }}")
+
+
 def render(behaviours, seed, nr, nf):
     rng = random.Random(seed)
     out = []
-    fields = ", ".join(f"f{f}: Option[Node]" for f in range(1, nf + 1))
-    out.append(f"class Node {{ id: Int32, pad: Int64, {fields} }}")
-    out.append("class Holder { slot: Option[Node] }")
-    out.append("struct Pair { tag: Int32, item: Option[Node] }")
-    out.append("fn show(x: Option[Node], d: Int32) {")
-    out.append("    match x {")
-    out.append("        None => print(\"-\"),")
-    out.append("        Some(n) => {")
-    out.append("            print(\"${n.id}\");")
-    out.append("            if d == 0i32 { print(\"..\"); } else {")
-    out.append("                print(\"(\");")
-    for f in range(1, nf + 1):
-        if f > 1:
-            out.append("                print(\",\");")
-        out.append(f"                show(n.f{f}, d - 1i32);")
-    out.append("                print(\")\");")
-    out.append("            }")
-    out.append("        }")
-    out.append("    }")
-    out.append("}")
-    none_fields = ", ".join(f"f{f} = None[Node]" for f in range(1, nf + 1))
-    out.append(f"fn mk(id: Int32): Node {{ Node(id = id, pad = id.to_int64() * 1000, {none_fields}) }}")
     # helper that collects a few frames below the caller (roots live in caller frames across the call)
     out.append("fn deep_collect(n: Int32, minor: Bool) { if n > 0i32 { deep_collect(n - 1i32, minor); } else if minor { std::force_minor_collect(); } else { std::force_collect(); } }")
     expected = {}
@@ -48,40 +61,42 @@ def render(behaviours, seed, nr, nf):
         kinds = {r: rng.choice(["local", "local", "global", "array", "holder", "struct"]) for r in range(1, nr + 1)}
         cid = f"b{bi}"
         out.append(f"mod {cid} {{")
-        out.append("    use super::{Node, Holder, Pair, show, mk, deep_collect};")
+        out.append("    use super::deep_collect;")
+        N, H, P = f"Node{bi}", f"Holder{bi}", f"Pair{bi}"
+        classes(out, "    ", nf, PADS[bi % len(PADS)], N, H, P)
         for r, k in kinds.items():
             if k == "global":
-                out.append(f"    let mut G{r}: Option[Node] = None[Node];")
+                out.append(f"    let mut G{r}: Option[{N}] = None[{N}];")
         out.append("    pub fn run() {")
         get = {}; setf = {}
         for r, k in kinds.items():
             if k == "local":
-                out.append(f"        let mut r{r}: Option[Node] = None[Node];")
+                out.append(f"        let mut r{r}: Option[{N}] = None[{N}];")
                 get[r] = f"r{r}"; setf[r] = lambda e, r=r: f"r{r} = {e};"
             elif k == "global":
                 get[r] = f"G{r}"; setf[r] = lambda e, r=r: f"G{r} = {e};"
             elif k == "array":
-                out.append(f"        let a{r} = Array[Option[Node]]::fill(3i64, None[Node]);")
+                out.append(f"        let a{r} = Array[Option[{N}]]::fill(3i64, None[{N}]);")
                 get[r] = f"a{r}(1i64)"; setf[r] = lambda e, r=r: f"a{r}(1i64) = {e};"
             elif k == "holder":
-                out.append(f"        let h{r} = Holder(slot = None[Node]);")
+                out.append(f"        let h{r} = {H}(slot = None[{N}]);")
                 get[r] = f"h{r}.slot"; setf[r] = lambda e, r=r: f"h{r}.slot = {e};"
             else:
-                out.append(f"        let mut p{r} = Pair(tag = {r}i32, item = None[Node]);")
+                out.append(f"        let mut p{r} = {P}(tag = {r}i32, item = None[{N}]);")
                 get[r] = f"p{r}.item"; setf[r] = lambda e, r=r: f"p{r}.item = {e};"
         dump = " print(\" \"); ".join(f"show({get[r]}, {DEPTH}i32);" for r in range(1, nr + 1)) + " println(\"\");"
         lines = []
         for st in beh:
             op = st["op"]
             if op == "alloc":
-                out.append("        " + setf[st["a"]](f"Some[Node](mk({st['b']}i32))"))
+                out.append("        " + setf[st["a"]](f"Some[{N}](mk({st['b']}i32))"))
             elif op == "write":
                 out.append(f"        {get[st['a']]}.get_or_panic().f{st['b']} = {get[st['c']]};")
             elif op == "read":
                 out.append(f"        let tmp = {get[st['a']]}.get_or_panic().f{st['b']};")
                 out.append("        " + setf[st["c"]]("tmp"))
             elif op == "drop":
-                out.append("        " + setf[st["a"]]("None[Node]"))
+                out.append("        " + setf[st["a"]](f"None[{N}]"))
             elif op == "minor":
                 out.append(f"        deep_collect({rng.randint(0, 3)}i32, true);")
             elif op == "full":
